@@ -1133,6 +1133,39 @@ func TestStatusSweep(t *testing.T) {
 			}
 		}
 	}
+	// the header fields that the acceptance policy PARSES (Cache-Control directives, Expires, Content-Type),
+	// with hostile values, behind a valid signature
+	hostileValues := []string{"", ",", ",,", "=", "==", "\"", "\"\"", "max-age", "max-age=", "max-age=\"", "max-age=\"600", "max-age=600\"", "max-age=\"600\"", "max-age=-1", "max-age=99999999999999999999",
+		"no-cache=\",set-cookie\"", "no-cache=\"set-cookie,\"", "private=\", x\"", "private=\"", "a=\"b", "a=b=c", "=x", " ", "\t", ";", "public;", "s-maxage=1,", ",public", "public,,private", "no-store\x00",
+		"MAX-AGE=1", "max-age = 1", "max-age=1 , public", strings.Repeat("a,", 2000), strings.Repeat("\"", 1001), strings.Repeat("x=", 500), "\\", "a=\"\\\"\"", "\xff\xfe", "public\r\n"}
+	for _, name := range []string{"Cache-Control", "Expires", "Content-Type", "Pragma", "Vary", "Age"} {
+		for _, v := range hostileValues {
+			for _, two := range []bool{false, true} {
+				vals := []string{v}
+				if two {
+					vals = []string{"public", v}
+				}
+				hs := []gen.HeaderKV{{Name: name, Values: vals}}
+				if name != "Content-Type" {
+					hs = append(hs, gen.HeaderKV{Name: "Content-Type", Values: []string{"text/html"}})
+				}
+				s := sxgkit.Spec{Version: "1b3", URL: "https://a.example/", Method: "GET", Status: 200, PayloadLen: 10, RecordSize: 16, Fixture: 0, Date: 1_700_000_000 - 10, Expires: 1_700_000_000 + 100,
+					ValidityURL: "https://a.example/v", CertURL: "https://a.example/c", ResHeaders: hs}
+				e, _, err := sxgkit.Build(&s)
+				if err != nil {
+					continue
+				}
+				var buf bytes.Buffer
+				if err := e.Write(&buf); err != nil {
+					continue
+				}
+				n++
+				if !prop.One(t, Case{Target: "signedexchange.Verify", Input: buf.Bytes(), Aux: sxgkit.ChainCBOR(0), Origin: "policy-header-sweep"}) {
+					return
+				}
+			}
+		}
+	}
 	vh.Exhaustive("parsers", fmt.Sprintf("status sweep: validly signed 1b3 (and some 1b2) exchanges with every status -1..1100 and a few larger, with / without explicit freshness, through ReadExchange + Verify: %d files", n))
 }
 
